@@ -71,6 +71,18 @@ func (e *Engine) call(fr *frame, st *State, c *ast.CallExpr, k func(st *State, r
 			}
 			e.eval(fr, st, c.Args[1], func(st *State, n Val) {
 				if ty.K == spec.KNB {
+					if n.T.IsAtom() {
+						var cn int
+						if _, err := fmt.Sscanf(n.T.A, "%d", &cn); err == nil && cn >= 0 && cn <= 64 && fmt.Sprint(cn) == n.T.A {
+							z := nbv(sx.Str(strings.Repeat("\x00", cn)))
+							z.KnownLen = cn + 1
+							for i := 0; i < cn; i++ {
+								z.Cells = append(z.Cells, sx.Str("\x00"))
+							}
+							k(st, []Val{z})
+							return
+						}
+					}
 					z := e.uf("zeros", spec.Type{K: spec.KNB}, n)
 					st.facts = append(st.facts, sx.App("=", sx.App("str.len", z.bytes()), n.T))
 					k(st, []Val{z})
@@ -83,10 +95,29 @@ func (e *Engine) call(fr *frame, st *State, c *ast.CallExpr, k func(st *State, r
 		case "copy":
 			e.evalList(fr, st, c.Args, func(st *State, vs []Val) {
 				if id, ok := c.Args[0].(*ast.Ident); ok && vs[0].Ty.K == spec.KNB {
-					r := e.uf("bytes_copy", spec.Type{K: spec.KNB}, vs[0], vs[1])
-					st.facts = append(st.facts, sx.App("=", sx.App("str.len", r.bytes()), sx.App("str.len", vs[0].bytes())))
-					st.vars[info.Uses[id]] = r
-					k(st, []Val{mk(sx.Int(0), spec.KInt)})
+					if vs[0].KnownLen > 0 && len(vs[0].Cells) == vs[0].KnownLen-1 {
+						// buffer of constant length: byte i comes from src if src is long enough
+						src := e.name(st, nbv(vs[1].bytes()))
+						sl := sx.App("str.len", src.bytes())
+						r := Val{KnownLen: vs[0].KnownLen}
+						for i, c := range vs[0].Cells {
+							r.Cells = append(r.Cells, sx.Ite(sx.App("<", sx.Int(int64(i)), sl), sx.App("str.at", src.bytes(), sx.Int(int64(i))), c))
+						}
+						r.TV = nbv(cat(r.Cells...)).TV
+						st.vars[info.Uses[id]] = r
+						n := sx.Int(int64(len(r.Cells)))
+						k(st, []Val{mk(sx.Ite(sx.App("<=", n, sl), n, sl), spec.KInt)})
+						return
+					}
+					// copy(dst, src): the first min(len) bytes of src followed by the rest of dst
+					dl, sl := sx.App("str.len", vs[0].bytes()), sx.App("str.len", vs[1].bytes())
+					m := e.name(st, mk(sx.Ite(sx.App("<=", dl, sl), dl, sl), spec.KInt))
+					r := nbv(cat(sx.App("str.substr", vs[1].bytes(), sx.Int(0), m.T), sx.App("str.substr", vs[0].bytes(), m.T, sx.App("-", dl, m.T))))
+					r.KnownLen = vs[0].KnownLen
+					nv := e.name(st, r)
+					nv.KnownLen = r.KnownLen
+					st.vars[info.Uses[id]] = nv
+					k(st, []Val{m})
 					return
 				}
 				panic("copy into a non-variable")
@@ -276,7 +307,7 @@ func (e *Engine) call(fr *frame, st *State, c *ast.CallExpr, k func(st *State, r
 	argExprs = append(argExprs, c.Args...)
 	e.evalList(fr, st, argExprs, func(st *State, vs []Val) {
 		if fs := e.specOf(fn); fs != nil && fr.ver != nil && fr.ver.modular {
-			if !fr.ver.explicitFaults || fs.Nofault || fs.Pure {
+			if !fr.ver.explicitFaults || fs.Nofault {
 				e.applyContract(fr, st, fn, decl, fs, vs, k)
 				return
 			}
@@ -744,11 +775,12 @@ const (
 
 func (e *Engine) find(fr *frame, st *State, prefix Val, opts int64) Val {
 	e.nsnaps++
-	it := &IterVal{ID: e.nsnaps, Store: st.store, Prefix: prefix.bytes(), Opts: opts}
-	e.extraFn[fmt.Sprintf("snap%d_a", it.ID)] = fmt.Sprintf("(declare-const snap%d_len Int)", it.ID)
-	e.extraFn[fmt.Sprintf("snap%d_b", it.ID)] = fmt.Sprintf("(declare-fun snap%d_key (Int) String)", it.ID)
-	e.extraFn[fmt.Sprintf("snap%d_c", it.ID)] = fmt.Sprintf("(declare-fun snap%d_idx (String) Int)", it.ID)
+	// name store and prefix so that the snapshot terms stay small
+	pv := e.name(st, nbv(prefix.bytes()))
+	it := &IterVal{ID: e.nsnaps, Store: st.store, Prefix: pv.bytes(), Opts: opts}
+	spec.DeclareSnapshots()
 	j := sx.Atom("j?snap")
+	j2 := sx.Atom("i?snap")
 	k := sx.Atom("k?snap")
 	hasK := func(key *sx.T) *sx.T { return sx.Not(sx.App("(_ is None)", sx.App("select", it.Store, key))) }
 	inRange := func(x *sx.T) *sx.T { return sx.And(sx.App("<=", sx.Int(0), x), sx.App("<", x, it.lenT())) }
@@ -756,12 +788,18 @@ func (e *Engine) find(fr *frame, st *State, prefix Val, opts int64) Val {
 		return sx.List(sx.Atom("forall"), sx.List(sx.List(sx.Atom(v), sx.Atom(sort))),
 			sx.List(sx.Atom("!"), body, sx.Atom(":pattern"), sx.List(pat)))
 	}
-	e.extraFn["cnt"] = "(declare-fun cnt (Store String) Int)"
+	less := func(a, b *sx.T) *sx.T { return sx.App("str.<", a, b) }
+	if opts&optBackwards != 0 {
+		less = func(a, b *sx.T) *sx.T { return sx.App("str.<", b, a) }
+	}
+	order := sx.List(sx.Atom("forall"), sx.List(sx.List(j2, sx.Atom("Int")), sx.List(j, sx.Atom("Int"))),
+		sx.List(sx.Atom("!"), sx.Implies(sx.And(sx.App("<=", sx.Int(0), j2), sx.App("<", j2, j), sx.App("<", j, it.lenT())), less(it.keyT(j2), it.keyT(j))),
+			sx.Atom(":pattern"), sx.List(it.keyT(j2), it.keyT(j))))
 	st.facts = append(st.facts,
 		sx.App(">=", it.lenT(), sx.Int(0)),
-		sx.App("=", it.lenT(), sx.App("cnt", it.Store, it.Prefix)),
 		q("j?snap", "Int", it.keyT(j), sx.Implies(inRange(j), sx.And(hasK(it.keyT(j)), sx.App("str.prefixof", it.Prefix, it.keyT(j)), sx.App("=", it.idxT(it.keyT(j)), j)))),
 		q("k?snap", "String", sx.App("select", it.Store, k), sx.Implies(sx.And(hasK(k), sx.App("str.prefixof", it.Prefix, k)), sx.And(inRange(it.idxT(k)), sx.App("=", it.keyT(it.idxT(k)), k)))),
+		order,
 	)
 	return Val{TV: spec.TV{T: sx.Int(0), Ty: spec.Type{K: spec.KInt}}, Iter: it}
 }
